@@ -1076,12 +1076,24 @@ class Enumerator:
         env.update(bound)
         self.emit(st, "inline", fi.qualname, orig, func=render(call.func), cls=selfcls)
         st.env, st.fn, st.selfcls, st.depth, st.frames, st.module = env, fi.qualname, selfcls, st.depth + 1, st.frames + (f"{fi.qualname}@{st.selfpath}",), fi.module
+        mark = len(st.evs)
         res = self.exec_block(fd.body, st)
         out = []
         for s2, o in res:
             # restore caller frame; keep attribute facts written by the callee on the same object
             callee_env = s2.env
             new_env = dict(saved_env)
+            if selfterm is None and not is_closure:
+                # caller locals that hold an earlier read of an attribute the callee stored keep the *old* value
+                stored = {e.extra.get("target") for e in s2.evs[mark:] if e.kind == "store" and e.extra.get("recv") == "self"}
+                stored.discard(None)
+                if stored:
+                    for k, t in list(new_env.items()):
+                        if "." in k or k == "self" or isinstance(t, (ast.FunctionDef, ast.Constant, ast.Name)):
+                            continue
+                        rt_ = render(t)
+                        if any(tg in rt_ for tg in stored):
+                            new_env[k] = ast.Name(f"{k}'", ast.Load())
             if is_closure:
                 for k, v in callee_env.items():
                     if k.startswith("self."):
